@@ -461,7 +461,9 @@ func c20Names(typ string) []string {
 	other := map[string]string{"str": "join", "arr": "upper", "int": "round", "float": "decimal", "bool": "len"}[typ]
 	own := map[string]string{"str": "upper", "arr": "join", "int": "abs", "float": "round", "bool": "binary"}[typ]
 	// names are exact: "F" is not "f", "Upper" is not the built-in "upper"; digits and underscores are letters of a name
-	n := []string{"f", "g", own, other, "F", "Shout", strings.ToUpper(own[:1]) + own[1:], "x_1"}
+	// (long names that share their first forty letters: an error names the function that was called, whole)
+	long := "computeTheTotalPriceOfTheWholeBasketWith"
+	n := []string{"f", "g", own, other, "F", "Shout", strings.ToUpper(own[:1]) + own[1:], "x_1", long, long + "Taxes", long + "TaxesAndShipping"}
 	if typ == "arr" {
 		n = append(n, "badret")
 	}
